@@ -229,7 +229,8 @@ def tlc(cwd, module, cfg=None, workers=None, timeout=900, simulate=None, depth=N
     r.ok = ("Model checking completed. No error has been found." in r.output) or \
            (simulate is not None and p.returncode == 0 and "Error:" not in r.output)
     if not r.ok and not r.violated:
-        raise Inconclusive("TLC failed on %s:\n%s" % (module, tail(r.output, 60)))
+        errs = [l for l in r.output.splitlines() if ("Error" in l or "Exception" in l or "error:" in l) and not l.startswith('<<"')]
+        raise Inconclusive("TLC failed on %s:\n%s\n%s" % (module, "\n".join(errs[:15]), tail(r.output, 12)))
     return r
 
 
